@@ -44,6 +44,8 @@ func c05Vars() map[string]mj.Recipe {
 		"any2":  mj.RAny(mj.RInt(0), mj.RStr("z")),
 		"arr":   {T: "array", Is: []int64{4, 5}},
 		"sarr":  {T: "sarray", Ss: []string{"p", "q"}},
+		"eif":   {T: "embiface"},
+		"euf":   {T: "embuiface"},
 		"zarr":  {T: "array", Is: []int64{0, 0, 0}}, // arrays whose elements are all zero values still have elements
 		"zsarr": {T: "sarray", Ss: []string{"", ""}},
 		"pzarr": {T: "ptr", Elems: []mj.Recipe{{T: "array", Is: []int64{0, 0}}}},
@@ -117,6 +119,12 @@ func (g *c05Gen) cond(scope []string) *mj.Expr {
 		return mj.Not(mj.Var(c05CondVars[g.n(0, len(c05CondVars)-1, "notvar")]))
 	case k == 7:
 		return mj.Bin("==", mj.Var("i1"), mj.Num(float64(g.n(0, 1, "eqto"))))
+	case k == 8:
+		// interface-typed struct fields promoted through an embedded pointer / an unexported embedded struct
+		base := []string{"eif", "euf"}[g.n(0, 1, "promotedBase")]
+		f := []string{"Flag", "Count", "Name", "On"}[g.n(0, 3, "promotedField")]
+		g.labels["cond:promoted-interface-field:"+base+"."+f] = true
+		return mj.Chain(mj.Var(base), f)
 	default:
 		if len(scope) > 0 {
 			s := scope[g.n(0, len(scope)-1, "scopecond")]
@@ -180,6 +188,13 @@ func (g *c05Gen) rangeStmt(depth int, scope []string) []*mj.Node {
 	var inner []string
 	id := g.nextTag("")
 	kn, vn := "k"+id, "v"+id
+	// (not for the assigning form over a multi-entry map: the value left behind would depend on the iteration order)
+	shared := g.n(0, 2, "sharedLoopNames") == 0 && !(s.multi && !decl)
+	if shared {
+		// the same names at every nesting level: an inner loop's variables shadow, they do not replace
+		kn, vn = "k", "v"
+		g.labels["loop-variable-names-reused-across-levels"] = true
+	}
 	switch form {
 	case 1:
 		n.Names = []string{kn}
@@ -252,6 +267,14 @@ func (g *c05Gen) rangeStmt(depth int, scope []string) []*mj.Node {
 		g.labels["truthiness-of-binding:"+map[bool]string{true: "dot", false: fmt.Sprintf("var-form%d", form)}[b == "."]] = true
 	}
 	body = append(body, g.stmts(depth+1, append(append([]string{}, scope...), inner...))...)
+	if shared {
+		// ... and are themselves again once the inner statement has ended
+		for _, nm := range inner {
+			if nm != "." {
+				body = append(body, mj.Text("(again "+nm+"="), mj.Print(mj.Var(nm)), mj.Text(")"))
+			}
+		}
+	}
 	if s.multi {
 		body = append(body, mj.Text("⟧"))
 	} else {
